@@ -77,6 +77,7 @@ static void fill_input(Operand &o, const Case &c, int which, uint64_t junk)
     if (is_arr(o.s)) {
         // exact extent: the arena ends at a guard page (ASan build: exact-size malloc), one element past the last designated cell faults
         o.gb.alloc(o.size * sizeof(E)); o.arena = o.gb.as<E>(); o.guarded = true; // exact extent
+        if (o.gb.failed) return; // (huge sparse arena refused by the system: the caller skips the case)
         if (!o.gb.sparse) for (uint64_t i = 0; i < o.size; i++) o.arena[i].fe = pbt::mix(junk, i + 1000 * which);
         else for (int k = 0; k < o.L; k++) for (int d = -1; d <= o.dim; d++) { uint64_t i = o.pos[k] + (uint64_t)d; if (i < o.size) o.arena[i].fe = pbt::mix(junk, i + 1000 * which); } // huge extent: junk around the designated cells only
         for (int k = 0; k < o.L; k++) for (int i = 0; i < o.dim; i++) o.arena[o.pos[k] + i].fe = pool[(3 * k + i) % np];
@@ -118,17 +119,20 @@ static bool run_row(const Row &r, const Case &c, uint64_t junk, std::vector<ref:
     } else {
     fill_input(A, c, 0, junk); fill_input(B, c, 1, junk ^ 0xB0B);
     }
+    if (A.gb.failed || B.gb.failed) { why = "SKIP"; return true; }
     std::vector<uint64_t> a0, b0;
     if (A.arena && !A.gb.sparse) { a0.resize(A.size); for (uint64_t i = 0; i < A.size; i++) a0[i] = A.arena[i].fe; }
     if (B.arena && !B.gb.sparse) { b0.resize(B.size); for (uint64_t i = 0; i < B.size; i++) b0[i] = B.arena[i].fe; }
     uint64_t guard = SAN ? 0 : 8;
     const bool csparse = is_arr(C.s) && C.size * sizeof(E) >= ((size_t)1 << 26);
     if (csparse) { guard = 0; C.gb.alloc(C.size * sizeof(E)); C.arena = C.gb.as<E>(); C.guarded = true;
+        if (C.gb.failed || A.gb.failed || B.gb.failed) { why = "SKIP"; return true; }
         for (int k = 0; k < L; k++) for (int d = -2; d <= 4; d++) { uint64_t i = C.pos[k] + (uint64_t)d; if (i < C.size) C.arena[i].fe = SENT + i; }
     } else if (is_arr(C.s) && (junk & 2)) { // exact extent ending at an inaccessible page (the other run of the case has sentinel cells after the extent instead)
         guard = 0; C.gb.alloc(C.size * sizeof(E)); C.arena = C.gb.as<E>(); C.guarded = true; for (uint64_t i = 0; i < C.size; i++) C.arena[i].fe = SENT + i;
     } else
     if (is_arr(C.s)) { C.arena = (E *)malloc((C.size + guard) * sizeof(E)); for (uint64_t i = 0; i < C.size + guard; i++) C.arena[i].fe = SENT + i; }
+    if (A.gb.failed || B.gb.failed || C.gb.failed) { why = "SKIP"; return true; } // huge sparse arena refused by the system: no verdict for this case
     // precomputed "challenge sums" of the second operand: (b0+b1, b0+b2, b1+b2), now and then as non-canonical representatives
     std::vector<ref::E3> aux(L);
     for (int k = 0; k < L; k++) {
@@ -223,7 +227,9 @@ static bool body_row(const Case &c, Ctx &ctx)
     ctx.nontrivial = nt;
     std::vector<ref::E3> o1, o2; std::string why;
     std::string head = std::string(r.decl) + " [A=" + SN[r.A] + "/dim" + std::to_string(r.dA) + " B=" + SN[r.B] + "/dim" + std::to_string(r.dB) + " -> " + SN[r.C] + "] strides a,b,c=" + std::to_string(c.v[P_SA]) + "," + std::to_string(c.v[P_SB]) + "," + std::to_string(c.v[P_SC]);
+    why.clear();
     if (!run_row(r, c, c.v[P_JUNK], o1, why, 0, true)) return ctx.fail(head + ": " + why);
+    if (why == "SKIP") { ctx.cls("shape:huge-arena-refused-by-the-system(case-skipped)"); return true; }
     if (!run_row(r, c, ~c.v[P_JUNK], o2, why)) return ctx.fail(head + ": " + why);
     for (int k = 0; k < r.L; k++) if (ref::can3(o1[k]) != ref::can3(o2[k])) return ctx.fail(head + ": result depends on input cells that its strides do not designate");
     // in-place forms (accumulate usage: x = x*b, y = a*y), wherever the output has the shape of an operand
@@ -273,7 +279,8 @@ static rc::Gen<std::vector<uint64_t>> gen_row_case(std::vector<int> rows)
         static const std::vector<uint64_t> SI{0, 1, 2, 3, 4, 5, 7, 61, 1000}, SO{3, 4, 5, 7, 61, 1000};
         v[P_SA] = *rc::gen::elementOf(SI); v[P_SB] = *rc::gen::elementOf(SI); v[P_SC] = *rc::gen::elementOf(SO);
         // strides that do not fit 32 bits (sparse arenas), except where the routine itself declares a 32-bit stride parameter
-        if (*g::irange(0, 15) == 0) { int w = *g::irange(0, 2); uint64_t big = (1ull << 32) + (uint64_t)*g::irange(3, 9);
+        // (PBT_NO_HUGE: set for the valgrind jobs -- memcheck cannot map the sparse 32+ GiB arenas)
+        if (*g::irange(0, 15) == 0 && !getenv("PBT_NO_HUGE")) { int w = *g::irange(0, 2); uint64_t big = (1ull << 32) + (uint64_t)*g::irange(3, 9);
             if (w == 0 && !(r.w32 & 1)) v[P_SA] = big; else if (w == 1 && !(r.w32 & 2)) v[P_SB] = big; else if (w == 2 && !(r.w32 & 4)) v[P_SC] = big; }
         auto ia = *gen_idx(false, r.dA), ib = *gen_idx(false, r.dB), ic = *gen_idx(true, 3);
         for (int k = 0; k < 8; k++) { v[P_IA + k] = ia[k]; v[P_IB + k] = ib[k]; v[P_IC + k] = ic[k]; }
